@@ -40,7 +40,7 @@ func compareWholeDB(o *hx.Oracle, path string, db *sqlittle.DB, low *sdb.Databas
 		cols := t.ColNames()
 		sel := cols
 		if t.WR == 0 {
-			sel = append([]string{"rowid"}, cols...)
+			sel = append([]string{t.RowidName()}, cols...)
 		}
 		got, err, pm := collectSelect(db, t.Name, sel)
 		if pm != "" {
@@ -63,7 +63,7 @@ func compareWholeDB(o *hx.Oracle, path string, db *sqlittle.DB, low *sdb.Databas
 			if (t.WR != 0 && ix.Origin == "pk") || ix.Partial != 0 {
 				continue
 			}
-			order, err := hx.OrderByIndex(ix, hx.GenIndexMeta{})
+			order, err := hx.OrderByIndex(ix, hx.GenIndexMeta{}, t.RowidName())
 			if err != nil {
 				continue
 			}
